@@ -729,6 +729,150 @@ fn check_full(item: &str, _ctx: &Ctx) -> Outcome {
     Outcome::pass(true, hash_str(item)).with_case(case)
 }
 
+
+// ------------------------------------------------------------------ direct statements, repeated
+
+/// Stored programs a direct statement is typed against: none, a valid one, and ones the execution
+/// gate refuses (a dangling line reference, a syntax error).
+const STORES: &[&[&str]] = &[
+    &[],
+    &["10 DATA 1,2,3", "20 DEF FNA(X)=X+1", "30 Q7=Q7+1", "40 END", "100 Q8=1:RETURN", "110 REM"],
+    &["10 PRINT \"P\"", "20 GOTO 99", "30 END", "100 RETURN"],
+    &["10 PRINT 1+", "30 END", "100 RETURN"],
+    &["10 FOR I=1 TO 2:NEXT J", "20 WEND", "100 RETURN"],
+];
+
+/// Direct statements that leave no FOR/GOSUB frame behind by themselves, whether they complete or
+/// end in an error.
+const DIRECT_UNITS: &[&str] = &[
+    "RENUM", "RENUM 100", "RENUM 10,10,10", "RENUM 10,0,10", "RENUM 1,2,0", "RENUM 70000", "LIST", "LIST 10", "LIST 10-20", "LIST -", "DELETE 500-600", "DELETE 99", "DELETE 70000",
+    "PRINT 1+2", "PRINT FNA(2)", "GOSUB 100", "ON 1 GOSUB 100", "ON 0 GOSUB 100", "ON 5 GOSUB 100,100", "ON 0 GOTO 100", "ON -1 GOSUB 100", "ON 2 GOTO 100,99",
+    "FOR I=1 TO 2:NEXT", "FOR I=1 TO 2:FOR J=1 TO 2:NEXT J,I", "WHILE 0:WEND", "READ A", "READ A,B$", "RESTORE", "RESTORE 10", "RESTORE 99", "NEXT", "NEXT I", "RETURN", "WEND",
+    "GOTO 99", "GOSUB 99", "RUN 99", "RUN", "RUN 30", "CONT", "STOP", "END", "CLEAR", "CLEAR 1,2", "CLEAR ,", "TRON", "TROFF", "DIM Q(2):ERASE Q", "ERASE Z", "DIM R(1),R(1)",
+    "SWAP A,B", "SWAP A,B$", "MID$(A$,1)=\"x\"", "MID$(A$,0)=\"x\"", "A$=STRING$(300,\"x\")", "A$=STRING$(200,\"x\")+STRING$(200,\"y\")", "A%=40000", "PRINT 1/0", "PRINT 1\\0", "PRINT 2+(3*(4+1\\0))",
+    "PRINT \"a\"+(\"b\"+CHR$(-1))", "X=FNZ(1)", "X=FNA(1,2)", "DEF FNB(X)=X", "DATA 1", "INPUT A", "INPUT \"P\";A$,B", "LOAD \"X\"", "SAVE \"X\"", "RUN \"X\"", "CLS", "LET A=1", "IF 1 THEN 99",
+    "IF 0 THEN PRINT 1 ELSE PRINT 2", "IF 1 THEN GOSUB 100 ELSE 99", "PRINT TAB(300)", "PRINT LEFT$(\"a\")", "PRINT A(11)", "PRINT A(1,2,3)+A(1)", "PRINT MID$(\"abc\",0)", "PRINT VAL(\"1\")+ASC(\"\")",
+    "PRINT INSTR(0,\"a\",\"b\")", "PRINT 1+", "PRINT )", "GOTO", "A=", "A=1+\"x\"", "A$=1", "PRINT 1E38*10", "PRINT 32767+1", "PRINT -32768-1", "PRINT SQR(-1);LOG(0)", "PRINT INKEY$", "PRINT RND(1)*0",
+    "PRINT 1,2;3", "?", "REM x", "' x", "LET", "NEW",
+];
+
+fn check_direct_residue(t: &mut Tape, ctx: &Ctx) -> Outcome {
+    let si = t.below(STORES.len());
+    let run_first = si == 1 && t.chance(1, 3);
+    let n = 1 + t.below(3);
+    let mut units = vec![];
+    for _ in 0..n {
+        units.push(*t.pick(DIRECT_UNITS));
+    }
+    direct_residue(si, run_first, &units.join(":"), ctx)
+}
+
+/// Every single unit against every store (items `store|unit index`).
+fn gen_direct_cases(part: usize, parts: usize, _th: bool, emit: &mut dyn FnMut(&str)) {
+    let mut idx = 0;
+    for si in 0..STORES.len() {
+        for u in DIRECT_UNITS {
+            idx += 1;
+            if idx % parts == part {
+                emit(&format!("{}|{}", si, u));
+            }
+        }
+    }
+}
+
+fn check_direct_case(item: &str, ctx: &Ctx) -> Outcome {
+    match item.split_once('|') {
+        Some((si, line)) => match si.parse::<usize>() {
+            Ok(si) if si < STORES.len() => direct_residue(si, false, line, ctx),
+            _ => Outcome::discard("bad item"),
+        },
+        None => Outcome::discard("bad item"),
+    }
+}
+
+fn direct_residue(si: usize, run_first: bool, line: &str, ctx: &Ctx) -> Outcome {
+    let line = line.to_string();
+    let case = format!("{}\n{}{} (typed repeatedly)", STORES[si].join("\n"), if run_first { "RUN\n" } else { "" }, line);
+    crate::runner::note_case(&case);
+    let mut term = Term::new();
+    let mut o = Opts::default();
+    for l in STORES[si] {
+        term.line(l, &mut o);
+    }
+    if run_first {
+        term.line("RUN", &mut o);
+    }
+    term.take();
+    let mut depth = vec![];
+    let mut first = String::new();
+    let mut rep = |term: &mut Term, o: &mut Opts| -> Result<String, String> {
+        o.replies = ["1", "x,2"].iter().cycle().take(12).map(|s| s.to_string()).collect();
+        term.line(&line, o);
+        let got = term.take();
+        match has_panic(&got) {
+            Some(p) => Err(p),
+            None => Ok(flat(&got)),
+        }
+    };
+    for i in 0..10 {
+        match rep(&mut term, &mut o) {
+            Err(p) => return Outcome::fail("panic", p, case),
+            Ok(tx) => {
+                if i == 1 {
+                    first = tx;
+                }
+            }
+        }
+        depth.push(term.rt.verif_probe().stack_len);
+    }
+    // a GOSUB that the execution gate refuses stays pending like any abandoned GOSUB (the
+    // documented stack behaviour): such lines are not statements that leave nothing behind
+    let abandoned = si >= 2 && line.contains("GOSUB");
+    let grows = depth[9] > depth[5] && depth[5] > depth[1] && !abandoned;
+    if grows {
+        // a direct line that costs memory each time it is typed: typed often enough, does the
+        // interpreter run out of memory where the same line worked before?
+        let per = ((depth[9] - depth[1]) / 8).max(1);
+        let reps = 66_000 / per + 50;
+        for i in 0..reps {
+            match rep(&mut term, &mut o) {
+                Err(p) => return Outcome::fail("panic", p, case),
+                Ok(tx) => {
+                    if tx.contains("OUT OF MEMORY") && !first.contains("OUT OF MEMORY") {
+                        return Outcome::fail(
+                            "repeated-direct-statement-ran-out-of-memory",
+                            format!("the value stack grows by {} with every repetition (depths {:?}); repetition {} answers\n{}\nwhere the second answered\n{}", per, depth, i + 11, tx, first),
+                            case,
+                        );
+                    }
+                }
+            }
+        }
+    }
+    // afterwards the session is usable
+    let after = term.lines_flat(&["PRINT 1+1"]);
+    if after != " 2 \n" {
+        return Outcome::fail("session-not-usable", format!("PRINT 1+1 afterwards gives {:?}", after), case);
+    }
+    let nt = si >= 2 || first.starts_with('?') || grows;
+    let mut labels = vec![];
+    if si >= 2 {
+        labels.push("the stored program is refused by the execution gate");
+    }
+    if first.starts_with('?') {
+        labels.push("the direct line ends in an error");
+    }
+    if grows {
+        labels.push("stack depth grows with repetitions, yet 66 000 repetitions stay within memory");
+    }
+    let oc = Outcome::pass(nt, hash_str(&case)).with_labels(labels);
+    if ctx.render {
+        oc.with_case(format!("{}\n(stack depths after repetitions 1..10: {:?})", case, depth))
+    } else {
+        oc
+    }
+}
+
 pub fn property() -> Property {
     Property {
         id: "C18",
@@ -736,7 +880,8 @@ pub fn property() -> Property {
 the verif-hooks probe reads the value-stack depth at every loop head: it must be identical from iteration 2 on; (long_run) the same construction iterated 70 000 times (> 65 536) through the public API only: no OUT OF MEMORY; \
 (var_slots) sequences of assignments that set scalars and array elements of every type to a value and back to 0 / empty (also by expressions evaluating to 0): the number of stored values equals the number of variables holding a non-default value after every step; (full_pool) with 65 536 live values, overwriting, zeroing and re-using a slot work and a 65 537th value is refused; \
 (limits) 16 scenarios driving every pool past its limit: runaway GOSUB (program and direct mode), FN recursion (direct and mutual), ON..GOSUB recursion, FOR re-entered by GOTO, > 65 536 live numeric / string elements, > 65 536 DATA values, > 65 536 instructions, 1024-byte lines of parentheses / minus signs / nested IFs, string doubling: OUT OF MEMORY where a pool overflows, no panic, pools never beyond 65 536 + 64, and afterwards PRINT 1+1, NEW, a fresh program and an assignment work. \
-Non-trivial: the body contains a frame-pushing statement / a pool reached its limit. Distinct by program / scenario.",
+(direct_residue) one to three direct statements from a pool of ~110 (editing commands, jumps, loops, errors in mid-expression, refused forms) typed ten times against no program, a valid one and programs the execution gate refuses; where the probe shows the value stack growing with every repetition the line is typed up to 66 000 more times: it must never answer OUT OF MEMORY where it did not at first, and PRINT 1+1 works afterwards. \
+Non-trivial: the body contains a frame-pushing statement / a pool reached its limit / the direct line errs or the program is refused. Distinct by program / scenario.",
         assumptions: vec![
             "an abandoned FOR loop or GOSUB legitimately stays on the stack (that is the documented stack behaviour); residue bodies therefore never leave loops by GOTO and END inside a subroutine is turned into RETURN",
             "bodies that raise a BASIC error in some iteration (accumulating overflow, OUT OF DATA) are discarded: the statement speaks of terminating statement sequences",
@@ -748,6 +893,8 @@ Non-trivial: the body contains a frame-pushing statement / a pool reached its li
             Sub::tape("var_slots", check_var_slots, 100_000, 2_000_000, 60),
             Sub::tape("residue", check_residue, 40_000, 1_000_000, 700).wedge(120),
             Sub::tape("long_run", check_long_run, 320, 6000, 700).wedge(600),
+            Sub::items("direct_cases", gen_direct_cases, check_direct_case, false).wedge(600),
+            Sub::tape("direct_residue", check_direct_residue, 6000, 120_000, 40).wedge(600),
         ],
     }
 }
